@@ -1,7 +1,7 @@
 """Sidecar contracts for labella/renderer.py and the geometry helpers of timeline.py (C07, C08, C09)."""
 import z3
 
-from pyvc.values import Str, Num, R, I
+from pyvc.values import Str, Num, R, I, Bool
 
 TYPES = {}
 
@@ -166,3 +166,47 @@ for _d in DIRECTIONS:
             "requires": list(_req), "modifies": [],
             "ensures": _waypoint_posts(_d, _hops),
         }
+
+
+# ---------------------------------------------------------------------------------------------------------------------
+# C07 / C09: the link path text (Renderer.generatePath) for a label in layer 0-2, four directions, SVG text and the step list
+# the TikZ back-end consumes.  The expected text is written out from the way-points (verified above): one move to the dot,
+# then per layer ONE curve from the end of the previous segment to the axis-facing edge - both control points half-way
+# across - and, except in the label's own layer, ONE line along the box row.  "%.8f" is an abstract format term (A-STR):
+# two texts are equal iff they have the same skeleton and their printed numbers are equal.
+# ---------------------------------------------------------------------------------------------------------------------
+def _path_steps(direction, depth):
+    # the way-points as computed by the function itself (ghost name of the first assignment to the local `waypoints`; what
+    # they are is the contract of getWayPoints above)
+    W = "waypoints__0"
+    horizontal = direction in ("left", "right")
+    steps = ['"M %%.8f %%.8f" %% (%s[0][0][0], %s[0][0][1])' % (W, W)]
+    prev = "%s[0][0]" % W
+    for k in range(1, depth + 2):
+        cur0, cur1 = "%s[%d][0]" % (W, k), "%s[%d][1]" % (W, k)
+        if horizontal:
+            mid = "(%s[0] + %s[0]) / 2" % (prev, cur0)
+            c1, c2 = "%s, %s[1]" % (mid, prev), "%s, %s[1]" % (mid, cur0)
+        else:
+            mid = "(%s[1] + %s[1]) / 2" % (prev, cur0)
+            c1, c2 = "%s[0], %s" % (prev, mid), "%s[0], %s" % (cur0, mid)
+        steps.append('"C %%.8f %%.8f %%.8f %%.8f %%.8f %%.8f" %% (%s, %s, %s[0], %s[1])' % (c1, c2, cur0, cur0))
+        if k < depth + 1:
+            steps.append('"L %%.8f %%.8f" %% (%s[0], %s[1])' % (cur1, cur1))
+        prev = cur1
+    return steps
+
+
+for _d in DIRECTIONS:
+    for _depth, (_hops, _req) in _CHAIN.items():
+        _steps = _path_steps(_d, _depth)
+        for _tikz in (False, True):
+            CONTRACTS["renderer.Renderer.generatePath@%s_layer%d%s" % (_d, _depth, "_steps" if _tikz else "")] = {
+                "props": ["C07", "C09"], "heap": True, "inline": True, "func_alias": "renderer.Renderer.generatePath",
+                "params": dict({"self": renderer_obj(_d), "tikz": (lambda E, P, name, _t=_tikz: Bool(z3.BoolVal(_t)))},
+                               **{h: "ref:Node" for h in _hops}),
+                "requires": list(_req), "modifies": [],
+                "ensures": ([("as_many_steps_as_segments", "len(result) == %d" % len(_steps))]
+                            + [("step_%d" % i, "result[%d] == %s" % (i, s)) for i, s in enumerate(_steps)]) if _tikz
+                else [("path_text", "result == ' '.join([%s])" % ", ".join(_steps))],
+            }
